@@ -383,6 +383,8 @@ fn key_strategy() -> impl Strategy<Value = String> {
         4 => "[a-zA-Z0-9_. ]{1,8}",
         1 => Just("ключ-é".to_string()),
         1 => Just("k".to_string()),
+        // long keys with multi-byte characters at any byte position (keys are arbitrary strings)
+        2 => ("[a-z]{0,70}", "[éß✓ж𝄞]{1,3}", "[a-z._ ]{0,12}").prop_map(|(a, b, c)| format!("{}{}{}", a, b, c)),
     ]
 }
 pub fn metadata_strategy(cli: bool) -> impl Strategy<Value = Vec<MetaArg>> {
